@@ -15,6 +15,7 @@ import (
 	"fmt"
 	"os"
 	"path/filepath"
+	"runtime"
 	"testing"
 	"time"
 
@@ -37,7 +38,7 @@ type c03Case struct {
 	DataSeed int             `json:"data_seed"`
 	NoPrefix bool            `json:"no_prefix"`
 	// filestore part
-	FileSize int   `json:"file_size"`
+	FileSize int      `json:"file_size"`
 	Regions  [][2]int `json:"regions"` // offset, length
 	// KeepMtime: mutations leave the file's modification time unchanged (silent
 	// corruption, in-place writes with restored times, coarse-mtime file systems)
@@ -109,6 +110,13 @@ func c03Run(t *testing.T, ci any, trace bool) *verifsim.Result {
 	c := ci.(*c03Case)
 	dir := c03Dir()
 	defer os.RemoveAll(dir)
+	// sync.Pool is live in this check and emptied before every run: a read buffer
+	// that is recycled while a returned block still points into it is a way of
+	// returning bytes that do not match the CID (later, not at the time of the call).
+	runtime.VerifPools(true)
+	defer runtime.VerifPools(false)
+	runtime.GC()
+	runtime.GC()
 	return verifsim.Run(t, c.Cfg, trace, func(s *verifsim.Sim) {
 		ctx := context.Background()
 		// ---------- part A: validating blockstore over a corrupted datastore ----------
@@ -227,6 +235,25 @@ func c03Run(t *testing.T, ci any, trace bool) *verifsim.Result {
 			refs = append(refs, ref{r[0], r[1], nd.Cid()})
 		}
 		nmut := 0
+		// blocks handed out earlier must keep their bytes while later reads happen
+		type heldBlock struct {
+			b    blocks.Block
+			want []byte
+			desc string
+		}
+		var held []heldBlock
+		recheck := func(now string) bool {
+			for _, hb := range held {
+				if !bytes.Equal(hb.b.RawData(), hb.want) {
+					s.Failf("returned-block-changed-later", "a block returned by %s held the referenced bytes when it was returned and no longer does after %s", hb.desc, now)
+					return false
+				}
+			}
+			if len(held) > 24 {
+				held = held[len(held)-24:]
+			}
+			return true
+		}
 		// expect: "ok" (must succeed with the original region), "corrupt" (must fail), "any" (either, never wrong bytes)
 		probe := func(what string, expect func(r ref) string) bool {
 			nmut++
@@ -249,6 +276,9 @@ func c03Run(t *testing.T, ci any, trace bool) *verifsim.Result {
 						s.Failf("corrupt-reference-returned", "%s.Get after %s: region [%d,+%d) was read successfully although the file no longer holds the referenced data", via, what, r.off, r.ln)
 						return false
 					}
+					if err == nil {
+						held = append(held, heldBlock{b: b, want: append([]byte(nil), want...), desc: fmt.Sprintf("%s.Get (region [%d,+%d), after %s)", via, r.off, r.ln, what)})
+					}
 					if err != nil && exp == "ok" {
 						s.Failf("valid-reference-refused", "%s.Get after %s: region [%d,+%d) is untouched but the read failed: %v", via, what, r.off, r.ln, err)
 						return false
@@ -262,7 +292,7 @@ func c03Run(t *testing.T, ci any, trace bool) *verifsim.Result {
 					}
 				}
 			}
-			return true
+			return recheck(what)
 		}
 		if !probe("nothing", func(ref) string { return "ok" }) {
 			return
